@@ -34,6 +34,16 @@ type fnCall struct {
 	err               error
 }
 
+// successValue: usually a unique non-zero value, sometimes the zero value (a
+// legitimate result: a success must be kept whatever its value is).
+func (w *world) successValue(fc *fnCall) int {
+	if w.c.S.PlanP(200) {
+		w.c.S.Count("probe:zero-value-success")
+		return 0
+	}
+	return 1000 + fc.n
+}
+
 type world struct {
 	c       *core.Ctx
 	once    *promise.Once[int]
@@ -68,7 +78,7 @@ func (w *world) fn(ctx context.Context) (int, error) {
 	switch beh {
 	case 0, 1: // immediate success
 		core.YieldN("oncex.fn", c.S.Plan(3))
-		fc.val = 1000 + fc.n
+		fc.val = w.successValue(fc)
 		return fc.val, nil
 	case 2: // immediate error
 		core.YieldN("oncex.fn", c.S.Plan(3))
@@ -83,7 +93,7 @@ func (w *world) fn(ctx context.Context) (int, error) {
 			fc.err = ctx.Err()
 			return 0, fc.err
 		}
-		fc.val = 1000 + fc.n
+		fc.val = w.successValue(fc)
 		return fc.val, nil
 	case 8: // on cancellation returns an error that wraps the context's error (or a plain deadline-style error)
 		g := make(chan struct{})
@@ -98,13 +108,13 @@ func (w *world) fn(ctx context.Context) (int, error) {
 			}
 			return 0, fc.err
 		}
-		fc.val = 1000 + fc.n
+		fc.val = w.successValue(fc)
 		return fc.val, nil
 	case 5: // deaf to cancellation: waits for the gate, then succeeds
 		g := make(chan struct{})
 		w.gates = append(w.gates, g)
 		simrt.Recv1("oncex.fn-deaf", g)
-		fc.val = 1000 + fc.n
+		fc.val = w.successValue(fc)
 		return fc.val, nil
 	case 6: // deaf, then a real error
 		g := make(chan struct{})
@@ -117,7 +127,7 @@ func (w *world) fn(ctx context.Context) (int, error) {
 		w.gates = append(w.gates, g)
 		simrt.Select("oncex.fn-wait", simrt.Recv(ctx.Done()), simrt.Recv(g))
 		core.YieldN("oncex.fn-late", c.S.Plan(4))
-		fc.val = 1000 + fc.n
+		fc.val = w.successValue(fc)
 		return fc.val, nil
 	}
 }
